@@ -511,6 +511,29 @@ func machineIDs(c IDCase, id channel.ID, o *h.Outcome) *h.Failure {
 		if s := m.State(); s == nil || s.ID != id {
 			return h.Failf("machine-state-id:current", "current state carries another ID than the parameters (%x)", id)
 		}
+		// the unchecked forced update (the escape hatch for virtual channels) can
+		// bring a foreign state in; the regular path must go on judging successors
+		// by the PARAMETERS' id, not by whatever the current state carries
+		if err := m.ForceUpdate(foreign, m.Idx()); err == nil {
+			all := true
+			for i, ps := range c.Base.Parts {
+				if m.StagingTX().Sigs[i] != nil {
+					continue
+				}
+				sig, err := channel.Sign(gen.Acc(ps.Key), m.StagingState(), 0)
+				if err != nil || m.AddSig(channel.Index(i), sig) != nil {
+					all = false
+				}
+			}
+			if all && m.EnableUpdate() == nil {
+				o.Class("machine:foreign-state-forced-in")
+				next := m.State().Clone()
+				next.Version++
+				if err := m.Update(next, m.Idx()); err == nil {
+					return h.Failf("machine-state-id:foreign-successor-accepted", "after a forced state with the foreign ID %x, Update accepts (stages for signing) a successor that carries that ID; the parameters' ID is %x", next.ID, id)
+				}
+			}
+		}
 	}
 	return nil
 }
